@@ -626,6 +626,9 @@ func main() {
 			fmt.Println("cannot read replay:", err)
 			return
 		}
+		if replayRecord(b, res) {
+			return
+		}
 		var wr struct {
 			Case caseRef `json:"case"`
 		}
@@ -852,4 +855,6 @@ func main() {
 		nb = 64
 	}
 	writeByteCases(res, a.Out, kByteCases(root, res, nb, 120000), 16)
+	// manifest record codec and manifest replay: (P) against a reference codec/replay, (K) against the Coq model
+	writeRecordCases(res, a.Out, recordChecks(root, res, a.Thorough()), 12, 250000)
 }
